@@ -222,6 +222,9 @@ def run(ck):
     with attach.observe(on_exp=on_exp) as st:
         for dt in (torch.float64, torch.float32):
             attach.realistic_workloads(rng, dt, steps=10 if thorough else 6)
+    if ck.shard == ck.nshards - 1:
+        attach.run_repository_tests(ck, ["exp"])        # the repository's own tests, Exp monitor attached
+        ck.require("suite/ran_under_monitors")
     ck.note_add("attached_exp_calls", st["exp_calls"])
     ck.note_add("attached_skipped", st["skipped"])
     ck.floor("exp_attached", 50)
